@@ -67,16 +67,23 @@
    * "OccupiedEntry key / VacantEntry key, into_key":
        C11_entry_key_lawful   Occupied -> the slot of the STORED key; Vacant -> the
                               supplied key itself.
+   * "OccupiedEntry key / get / get_mut / into_mut":
+       C11_occ_get_lawful, C11_occ_get_mut_lawful, C11_occ_key_lawful,
+       C11_occ_into_mut_lawful   return slot i, the whole world unchanged
+       C11_entry_get_lawful, C11_entry_get_mut_lawful
+                              entry(k) then get / get_mut = the slot find_idx
+                              finds (= what Map::get / get_mut return), None when
+                              vacant; container unchanged
    * "VacantEntry insert":
        C11_vac_insert_lawful  appends (k,v) at index len, returns that slot; panics
                               (container and log unchanged) iff the map is full.
 
    PARTLY / NOT COVERED BY A THEOREM (left to the correspondence check)
-   * OccupiedEntry::get / get_mut / into_mut: in the model these are
-     `_ <- p_ref i ;; ret i` (identical text to occ_key / occ_into_mut); their
-     behaviour (return slot i, world unchanged) is proved as EntrySpec.occ_ref_lawful
-     for occ_into_mut and used inside C11_or_insert_lawful / C11_entry_key_lawful,
-     but there is no separate listed theorem for get / get_mut.
+   * OccupiedEntry::get / get_mut / key / into_mut: CLOSED by C11_occ_get_lawful
+     ... C11_entry_get_mut_lawful.  In the model the four are the same text
+     `_ <- p_ref i ;; ret i`; that get returns &V, get_mut / into_mut &mut V and
+     key &K of that slot (which projection, which lifetime) is not visible in the
+     model and is left to the harness (Exec.entry_chain).
    * The closure hypotheses: C11_or_insert_with*_lawful assume the closure does
      not panic, C11_and_modify_lawful that it does not panic and computes a pure
      function g of the old value.  Panicking closures are covered for safety only
@@ -91,7 +98,7 @@
    ======================================================================== *)
 Require Import Model.Base Model.Slots Model.MapOps Model.EntryOps Model.Exec.
 Require Import Proofs.Hoare Proofs.Inv Proofs.Spec Proofs.Lawful Proofs.EntrySpec
-               Proofs.FmtSerde Proofs.Legacy.
+               Proofs.FmtSerde Proofs.Legacy Proofs.Gaps.
 
 Theorem C11_entry_of_lawful :
   forall (K V Q T : Type) (E : env K V Q T) (ck : K -> N) (cq : Q -> N) (HL : Lawful E ck cq)
@@ -289,6 +296,82 @@ Proof. exact (fun K V Q T E debug ck cq HL => or_insert_keeps_key E debug ck cq 
 Print Assumptions C11_or_insert_keeps_key.
 
 (* ---------------------------------------------------------------------- *)
+(* OccupiedEntry::get / get_mut / key / into_mut (Proofs/Gaps.v): each returns *)
+(* (a reference into) slot i and changes NOTHING - the whole world is equal;  *)
+(* no environment is involved (no user code runs)                             *)
+(* ---------------------------------------------------------------------- *)
+
+Theorem C11_occ_get_lawful :
+  forall (K V T : Type) (i : nat) (w : world K V T),
+    WF (self w) -> i < len (self w) ->
+    wp (occ_get i)
+       (fun (j : nat) (w' : world K V T) => j = i /\ w' = w)
+       (fun _ : world K V T => False) w.
+Proof. exact (fun K V T => @occ_get_lawful K V T). Qed.
+Print Assumptions C11_occ_get_lawful.
+
+Theorem C11_occ_get_mut_lawful :
+  forall (K V T : Type) (i : nat) (w : world K V T),
+    WF (self w) -> i < len (self w) ->
+    wp (occ_get_mut i)
+       (fun (j : nat) (w' : world K V T) => j = i /\ w' = w)
+       (fun _ : world K V T => False) w.
+Proof. exact (fun K V T => @occ_get_mut_lawful K V T). Qed.
+Print Assumptions C11_occ_get_mut_lawful.
+
+Theorem C11_occ_key_lawful :
+  forall (K V T : Type) (i : nat) (w : world K V T),
+    WF (self w) -> i < len (self w) ->
+    wp (occ_key i)
+       (fun (j : nat) (w' : world K V T) => j = i /\ w' = w)
+       (fun _ : world K V T => False) w.
+Proof. exact (fun K V T => @occ_key_lawful K V T). Qed.
+Print Assumptions C11_occ_key_lawful.
+
+Theorem C11_occ_into_mut_lawful :
+  forall (K V T : Type) (i : nat) (w : world K V T),
+    WF (self w) -> i < len (self w) ->
+    wp (occ_into_mut i)
+       (fun (j : nat) (w' : world K V T) => j = i /\ w' = w)
+       (fun _ : world K V T => False) w.
+Proof. exact (fun K V T => @occ_into_mut_lawful K V T). Qed.
+Print Assumptions C11_occ_into_mut_lawful.
+
+(* "same results as the direct map operations on that key": the chain
+   entry(k) -> OccupiedEntry::get (None when Vacant) returns exactly the slot
+   find_idx finds, i.e. what Map::get(k) returns (Lawful.get_lawful, C01), and
+   leaves the container unchanged; the same through get_mut *)
+Theorem C11_entry_get_lawful :
+  forall (K V Q T : Type) (E : env K V Q T) (ck : K -> N) (cq : Q -> N) (HL : Lawful E ck cq)
+         (k : K) (w : world K V T),
+    WF (self w) ->
+    wp (e <- entry_of E k ;;
+        match e with
+        | Occupied i => j <- occ_get i ;; ret (Some j)
+        | Vacant _ => ret None
+        end)
+       (fun (r : option nat) (w' : world K V T) =>
+          self w' = self w /\ r = find_idx ck (ck k) (Spec.elems (self w)))
+       (fun _ : world K V T => False) w.
+Proof. exact (fun K V Q T E ck cq HL => entry_get_lawful E ck cq HL). Qed.
+Print Assumptions C11_entry_get_lawful.
+
+Theorem C11_entry_get_mut_lawful :
+  forall (K V Q T : Type) (E : env K V Q T) (ck : K -> N) (cq : Q -> N) (HL : Lawful E ck cq)
+         (k : K) (w : world K V T),
+    WF (self w) ->
+    wp (e <- entry_of E k ;;
+        match e with
+        | Occupied i => j <- occ_get_mut i ;; ret (Some j)
+        | Vacant _ => ret None
+        end)
+       (fun (r : option nat) (w' : world K V T) =>
+          self w' = self w /\ r = find_idx ck (ck k) (Spec.elems (self w)))
+       (fun _ : world K V T => False) w.
+Proof. exact (fun K V Q T E ck cq HL => entry_get_mut_lawful E ck cq HL). Qed.
+Print Assumptions C11_entry_get_mut_lawful.
+
+(* ---------------------------------------------------------------------- *)
 (* non-vacuity                                                              *)
 (* ---------------------------------------------------------------------- *)
 
@@ -332,6 +415,26 @@ Example C11_example_runs :
   (* full map, absent key: panics, container unchanged *)
   match (e <- entry_of E (k_ 90 9) ;; or_insert E true e (v_ 91 0)) (w_of m3) with
   | Panic w' => self w' = m3
+  | _ => False
+  end.
+Proof. vm_compute. repeat split; reflexivity. Qed.
+
+(* entry(key of class 6).get() on m3 returns slot 1 (what find_idx finds) and
+   only the supplied key object is destroyed; OccupiedEntry::get_mut on slot 2
+   leaves the world as it is; entry(absent key).get() is None *)
+Example C11_example_get :
+  let E := env_map {| sc_adv := false; sc_seed := 0; sc_fk := 0; sc_fa := 0 |} in
+  match (e <- entry_of E (k_ 90 6) ;;
+         match e with Occupied i => j <- occ_get i ;; ret (Some j) | Vacant _ => ret None end)
+          (w_of m3) with
+  | Ok r w' => r = Some 1 /\ self w' = m3 /\ log w' = [EvDrop 90]
+  | _ => False
+  end /\
+  occ_get_mut 2 (w_of m3) = Ok 2 (w_of m3) /\
+  match (e <- entry_of E (k_ 90 9) ;;
+         match e with Occupied i => j <- occ_get i ;; ret (Some j) | Vacant _ => ret None end)
+          (w_of m3) with
+  | Ok r w' => r = None /\ self w' = m3
   | _ => False
   end.
 Proof. vm_compute. repeat split; reflexivity. Qed.
